@@ -15,17 +15,24 @@ type forExpander struct {
 	atEOF     bool
 
 	// for state fields
-	forCountLabel        string
-	forLineLabels        []string
-	forLineLabelsToWrite []string
-	forCount             int
-	forIndex             int
-	forContent           []token
-	forDepth             int
+	forCountLabel string
+	forLineLabels []string
+	forCount      int
+	forIndex      int
+	forContent    []token
+	forDepth      int
 
-	// number of leading labels in labelBuf that were handed on by a block
-	// that emitted nothing
-	handedOnLabels int
+	// index in forContent of the first line of the body that is an
+	// instruction or a nested FOR line: the labels of the block are written
+	// in front of it (-1 while there is no such line)
+	forLabelPos int
+	// index in forContent at which a run of lines that hold only labels
+	// began (-1 if the last line of the body was not such a line)
+	forDanglingPos int
+
+	// labels have been put out by a block that emitted nothing, and the
+	// line they belong to has not been seen yet
+	pendingLabels bool
 
 	symbols map[string][]token
 
@@ -127,7 +134,6 @@ func forLine(f *forExpander) forStateFn {
 	switch f.nextToken.typ {
 	case tokText:
 		f.labelBuf = make([]string, 0)
-		f.handedOnLabels = 0
 		return forConsumeLabels
 	default:
 		return forConsumeEmitLine
@@ -145,14 +151,6 @@ func forConsumeLabels(f *forExpander) forStateFn {
 		if f.nextToken.IsPseudoOp() {
 			opLower := strings.ToLower(f.nextToken.val)
 			if opLower == "for" {
-				if f.handedOnLabels > 0 && len(f.labelBuf) == f.handedOnLabels {
-					// every label in front of this block was handed on by a
-					// block that emitted nothing: the block has no count
-					// variable of its own, give it an unused one so that
-					// the labels stay labels
-					f.labelBuf = append(f.labelBuf, "__for_unnamed_"+strings.Join(f.labelBuf, "_"))
-				}
-				f.handedOnLabels = 0
 				f.next()
 				f.exprBuf = make([]token, 0)
 				return forConsumeExpression
@@ -198,6 +196,7 @@ func forWriteLabelsEmitConsumeLine(f *forExpander) forStateFn {
 		f.tokens <- token{tokText, label}
 	}
 	f.labelBuf = make([]string, 0)
+	f.pendingLabels = false
 	return f.emitConsume(forConsumeEmitLine)
 }
 
@@ -209,6 +208,7 @@ func forEquLine(f *forExpander) forStateFn {
 		f.tokens <- token{tokText, label}
 	}
 	f.labelBuf = make([]string, 0)
+	f.pendingLabels = false
 
 	// the equ token itself
 	f.tokens <- f.nextToken
@@ -304,14 +304,11 @@ func forFor(f *forExpander) forStateFn {
 		f.forLineLabels = []string{}
 	}
 
-	// the labels before the count variable are ordinary labels of the first
-	// line the block emits, visible inside and outside the block
-	f.forLineLabelsToWrite = make([]string, len(f.forLineLabels))
-	copy(f.forLineLabelsToWrite, f.forLineLabels)
-
 	f.forCount = val
 	f.forIndex = 0 // should not be necessary
 	f.forContent = make([]token, 0)
+	f.forLabelPos = -1
+	f.forDanglingPos = -1
 	f.labelBuf = make([]string, 0)
 
 	return forInnerLine
@@ -330,20 +327,39 @@ func forInnerLine(f *forExpander) forStateFn {
 	}
 }
 
-// this is really just to drop labels before 'rof'
+// markLabelPos is called at the first line of the body, outside nested
+// blocks, that is an instruction or a FOR line, before the labels of that line
+// are written to forContent: the labels of the block being read go in front of
+// that line (and of the lines holding only labels before it, which belong to
+// it as well)
+func (f *forExpander) markLabelPos(isFor bool) {
+	if f.forLabelPos >= 0 {
+		return
+	}
+	f.forLabelPos = len(f.forContent)
+	if f.forDanglingPos >= 0 {
+		f.forLabelPos = f.forDanglingPos
+	}
+	// labels written in front of a nested FOR without a count variable
+	// would be read as its count variable, so give it an unused one and
+	// they stay labels (derived from this block's own count variable, so
+	// that it is new at every level)
+	if isFor && len(f.labelBuf) == 0 && f.forDanglingPos < 0 && (len(f.forLineLabels) > 0 || f.pendingLabels) {
+		f.labelBuf = append(f.labelBuf, "__for_unnamed_"+f.forCountLabel)
+	}
+}
+
+// forInnerLabels reads the labels of a body line into labelBuf and looks at
+// the word after them
 func forInnerLabels(f *forExpander) forStateFn {
 	switch f.nextToken.typ {
 	case tokText:
 		if f.nextToken.IsPseudoOp() {
 			opLower := strings.ToLower(f.nextToken.val)
 			if opLower == "for" {
-				// the labels of this block are written in front of its first
-				// line; if that line is a nested FOR without a count variable
-				// they would be read as its count variable, so give it an
-				// unused one and they stay labels (derived from this block's
-				// own count variable, so that it is new at every level)
-				if f.forDepth == 0 && len(f.labelBuf) == 0 && len(f.forLineLabelsToWrite) > 0 {
-					f.labelBuf = append(f.labelBuf, "__for_unnamed_"+f.forCountLabel)
+				if f.forDepth == 0 {
+					f.markLabelPos(true)
+					f.forDanglingPos = -1
 				}
 				f.forDepth += 1
 				return forInnerEmitLabels
@@ -355,14 +371,15 @@ func forInnerLabels(f *forExpander) forStateFn {
 					return forRof
 				}
 			} else {
+				if f.forDepth == 0 {
+					f.forDanglingPos = -1
+				}
 				return forInnerEmitLabels
 			}
 		} else if f.nextToken.IsOp() {
-			if f.forLineLabelsToWrite != nil && f.forCount >= 1 {
-				for _, label := range f.forLineLabelsToWrite {
-					f.tokens <- token{tokText, label}
-				}
-				f.forLineLabelsToWrite = nil
+			if f.forDepth == 0 {
+				f.markLabelPos(false)
+				f.forDanglingPos = -1
 			}
 			return forInnerEmitLabels
 		} else {
@@ -370,8 +387,16 @@ func forInnerLabels(f *forExpander) forStateFn {
 			f.next()
 			return forInnerLabels
 		}
+	case tokColon:
+		// "label: op", as outside blocks
+		f.next()
+		return forInnerLabels
 	default:
-		// not expecting legal input here, but we will let the parser deal with it
+		// a line that holds only labels: they belong to the line after it
+		if f.forDepth == 0 && len(f.labelBuf) > 0 && f.forDanglingPos < 0 {
+			f.forDanglingPos = len(f.forContent)
+		}
+		// not expecting legal input here otherwise, but we will let the parser deal with it
 		return forInnerEmitLabels
 	}
 }
@@ -419,8 +444,17 @@ func forRof(f *forExpander) forStateFn {
 		f.recordBodyEqus()
 	}
 
+	// the labels written before the count variable are ordinary labels of
+	// the first line the block emits, visible inside and outside the block
+	emits := f.forCount >= 1 && f.forLabelPos >= 0
+
 	for i := 1; i <= f.forCount; i++ {
-		for _, tok := range f.forContent {
+		for pos, tok := range f.forContent {
+			if i == 1 && emits && pos == f.forLabelPos {
+				for _, label := range f.forLineLabels {
+					f.tokens <- token{tokText, label}
+				}
+			}
 			if tok.typ == tokText {
 				if tok.val == f.forCountLabel {
 					f.tokens <- token{tokNumber, fmt.Sprintf("%d", i)}
@@ -433,13 +467,15 @@ func forRof(f *forExpander) forStateFn {
 		}
 	}
 
-	if len(f.forLineLabelsToWrite) > 0 {
+	if emits {
+		f.pendingLabels = false
+	} else if len(f.forLineLabels) > 0 {
 		// the block emitted nothing (count zero, or no instruction in its
-		// body): its labels belong to the next line
-		f.labelBuf = f.forLineLabelsToWrite
-		f.handedOnLabels = len(f.labelBuf)
-		f.forLineLabelsToWrite = nil
-		return forConsumeLabels
+		// body): its labels belong to whatever comes next
+		for _, label := range f.forLineLabels {
+			f.tokens <- token{tokText, label}
+		}
+		f.pendingLabels = true
 	}
 
 	// carry on with the lines after the block: every outermost block of the
